@@ -306,6 +306,16 @@ def known_classes(prop):
     for e in kf.get("findings", []):
         if e.get("status") == "known" and (e.get("property") == prop or prop in e.get("also", [])) and e.get("class"):
             out[e["class"]] = e
+    # findings of this family's generators that are reported to the coordinator but not yet triaged into
+    # known_findings.json / repaired (harness/runs/pending_findings.json, witness in .work/new-defects-runs.md):
+    # printed as KNOWN-FINDING lines on every run, never silently dropped
+    try:
+        pend = json.load(open(os.path.join(common.HARNESS, "runs", "pending_findings.json")))
+    except (OSError, ValueError):
+        pend = {"findings": []}
+    for e in pend.get("findings", []):
+        if (e.get("property") == prop or prop in e.get("also", [])) and e.get("class") and e["class"] not in out:
+            out[e["class"]] = dict(e, id="PENDING " + e.get("id", "?"))
     return out
 
 
